@@ -53,7 +53,20 @@ def run_forward(rep, w, tier, pid, behaviours=None, replay=None):
             seqb, sd, n, ln = rp.get("seq", []), rp.get("seed", sd), rp.get("n", n), rp.get("len", ln)
         else:
             return
-    json.dump({"seq": seqb}, open(script, "w"))
+    flags = []
+    if not replay:
+        for codec in ("vp8", "vp9"):
+            _, raw = C.tlc_simulate(w, "Sim_Forward.tla", "Sim_Forward_%s.cfg" % codec, num=(150 if thorough else 40), depth=51, sd=sd, timeout=900)
+            seen = set()
+            for b in raw:
+                k = json.dumps(b["ops"][:-1])
+                if k not in seen:
+                    seen.add(k)
+                    flags.append({"codec": codec, "ops": b["ops"]})
+    else:
+        flags = rp.get("flags", [])
+    rep.cov["forward_behaviours_from_tlc"] = len(flags) + len(seqb)
+    json.dump({"seq": seqb, "flags": flags}, open(script, "w"))
     trace = os.path.join(w, "trace_forward.ndjson")
     env = dict(C.GOENV)
     env.update({"VERIF_IN": script, "VERIF_OUT": trace, "VERIF_SEED": str(sd), "VERIF_N": str(n), "VERIF_LEN": str(ln)})
@@ -91,12 +104,12 @@ def run_forward(rep, w, tier, pid, behaviours=None, replay=None):
                 rep.known(fid, KNOWN_TEXT.get(fid, fid))
             else:
                 rep.violation("known-finding signature %s matched but it is not listed in known_findings.json" % fid,
-                              {"level": "forward", "seed": sd, "n": n, "len": ln, "seq": seqb})
+                              {"level": "forward", "seed": sd, "n": n, "len": ln, "seq": seqb, "flags": flags})
     mine = PREFIX[pid]
     for (line, nb, clause) in v.bads:
         ev = events[line - 1] if 0 < line <= len(events) else {}
         if clause.startswith(mine):
             rep.violation("%s at forward trace line %d (behaviour %d): %s" % (clause, line, nb, json.dumps(ev)[:500]),
-                          {"level": "forward", "seed": sd, "n": n, "len": ln, "seq": seqb, "line": line, "clause": clause})
+                          {"level": "forward", "seed": sd, "n": n, "len": ln, "seq": seqb, "flags": flags, "line": line, "clause": clause})
         else:
             rep.notes.append("clause %s of another property failed at line %d (reported by that property's check)" % (clause, line))
